@@ -384,3 +384,170 @@ mutual
 end
 
 end Pg.C14
+
+namespace Pg.C14
+
+/-! ## forEachM -/
+
+inductive All2 {α β : Type} (R : α → β → Prop) : List α → List β → Prop where
+  | nil : All2 R [] []
+  | cons {a : α} {b : β} {as : List α} {bs : List β} : R a b → All2 R as bs → All2 R (a :: as) (b :: bs)
+
+theorem forEachM_spec {α β : Type} (f : α → M β) (I : St → Prop) (R : α → β → Prop) :
+    ∀ (l : List α), (∀ a ∈ l, ∀ s b s', I s → f a s = .ok (b, s') → R a b ∧ I s') →
+    ∀ s bs s', I s → forEachM f l s = .ok (bs, s') → All2 R l bs ∧ I s' := by
+  intro l
+  induction l with
+  | nil =>
+    intro _ s bs s' hi h
+    simp only [forEachM] at h
+    rw [pure_ok] at h
+    obtain ⟨rfl, rfl⟩ := h
+    exact ⟨All2.nil, hi⟩
+  | cons a as ih =>
+    intro hf s bs s' hi h
+    simp only [forEachM] at h
+    rw [bind_ok] at h
+    obtain ⟨b, s1, h1, h2⟩ := h
+    rw [bind_ok] at h2
+    obtain ⟨bs', s2, h3, h4⟩ := h2
+    rw [pure_ok] at h4
+    obtain ⟨rfl, rfl⟩ := h4
+    obtain ⟨hr, hi1⟩ := hf a List.mem_cons_self s b s1 hi h1
+    obtain ⟨hrs, hi2⟩ := ih (fun a' ha' => hf a' (List.mem_cons_of_mem _ ha')) s1 bs' s2 hi1 h3
+    exact ⟨All2.cons hr hrs, hi2⟩
+
+theorem forall₂_length {α β : Type} {R : α → β → Prop} {l : List α} {bs : List β}
+    (h : All2 R l bs) : bs.length = l.length := by
+  induction h with
+  | nil => rfl
+  | cons _ _ ih => simp [ih]
+
+theorem forall₂_right {α β : Type} {R : α → β → Prop} {l : List α} {bs : List β}
+    (h : All2 R l bs) : ∀ b ∈ bs, ∃ a ∈ l, R a b := by
+  induction h with
+  | nil => intro b hb; simp at hb
+  | cons hr _ ih =>
+    intro b hb
+    rcases List.mem_cons.mp hb with rfl | hb
+    · exact ⟨_, List.mem_cons_self, hr⟩
+    · obtain ⟨a, ha, hab⟩ := ih b hb
+      exact ⟨a, List.mem_cons_of_mem _ ha, hab⟩
+
+/-! ## Selectors -/
+
+theorem pickAll_spec (pop : Pop) (is : List Nat) (st : St) (out : Pop) (st' : St)
+    (h : pickAll pop is st = .ok (out, st')) :
+    (∀ y ∈ out, y ∈ pop) ∧ out.length = is.length ∧ st' = st := by
+  unfold pickAll at h
+  have := forEachM_spec (fun i => match pop[i]? with | some x => (pure x : M Ind) | none => fail .desync)
+    (fun s => s = st) (fun _ y => y ∈ pop) is
+    (by
+      intro i _ s b s' hs hb
+      cases hx : pop[i]? with
+      | none => rw [hx] at hb; exact ((fail_ok _ _ _).mp hb).elim
+      | some x =>
+        rw [hx] at hb
+        simp only [] at hb
+        rw [pure_ok] at hb
+        obtain ⟨rfl, rfl⟩ := hb
+        exact ⟨List.mem_of_getElem? hx, hs⟩)
+    st out st' rfl h
+  obtain ⟨hf, rfl⟩ := this
+  refine ⟨?_, forall₂_length hf, rfl⟩
+  intro y hy
+  obtain ⟨_, _, h⟩ := forall₂_right hf y hy
+  exact h
+
+theorem nextIdx_spec {k : RK} {n : Nat} {s : St} {i : Nat} {s' : St} (h : nextIdx k n s = .ok (i, s')) :
+    i < n ∧ s'.nextUid = s.nextUid := by
+  unfold nextIdx at h
+  rw [bind_ok] at h
+  obtain ⟨e, s1, h1, h2⟩ := h
+  have hu := popEv_uid h1
+  split at h2
+  · split at h2
+    · rename_i hc
+      rw [pure_ok] at h2
+      obtain ⟨rfl, rfl⟩ := h2
+      exact ⟨hc.2.2, hu⟩
+    · exact ((fail_ok _ _ _).mp h2).elim
+  · exact ((fail_ok _ _ _).mp h2).elim
+
+theorem nextSample_spec {n k : Nat} {s : St} {is : List Nat} {s' : St} (h : nextSample n k s = .ok (is, s')) :
+    is.length = k ∧ allLt n is = true ∧ nodupNat is = true ∧ s'.nextUid = s.nextUid := by
+  unfold nextSample at h
+  rw [bind_ok] at h
+  obtain ⟨e, s1, h1, h2⟩ := h
+  have hu := popEv_uid h1
+  split at h2
+  · split at h2
+    · rename_i hc
+      rw [pure_ok] at h2
+      obtain ⟨rfl, rfl⟩ := h2
+      exact ⟨hc.2.2.2.1, hc.2.2.2.2.1, hc.2.2.2.2.2, hu⟩
+    · exact ((fail_ok _ _ _).mp h2).elim
+  · exact ((fail_ok _ _ _).mp h2).elim
+
+theorem nextChoices_spec {n k : Nat} {s : St} {is : List Nat} {s' : St} (h : nextChoices n k s = .ok (is, s')) :
+    is.length = k ∧ allLt n is = true ∧ s'.nextUid = s.nextUid := by
+  unfold nextChoices at h
+  rw [bind_ok] at h
+  obtain ⟨e, s1, h1, h2⟩ := h
+  have hu := popEv_uid h1
+  split at h2
+  · split at h2
+    · rename_i hc
+      rw [pure_ok] at h2
+      obtain ⟨rfl, rfl⟩ := h2
+      exact ⟨hc.2.2.2.1, hc.2.2.2.2, hu⟩
+    · exact ((fail_ok _ _ _).mp h2).elim
+  · exact ((fail_ok _ _ _).mp h2).elim
+
+theorem nextShuffle_spec {n : Nat} {s : St} {is : List Nat} {s' : St} (h : nextShuffle n s = .ok (is, s')) :
+    is.length = n ∧ allLt n is = true ∧ s'.nextUid = s.nextUid := by
+  unfold nextShuffle at h
+  rw [bind_ok] at h
+  obtain ⟨e, s1, h1, h2⟩ := h
+  have hu := popEv_uid h1
+  split at h2
+  · split at h2
+    · rename_i hc
+      rw [pure_ok] at h2
+      obtain ⟨rfl, rfl⟩ := h2
+      exact ⟨hc.2.2.1, hc.2.2.2.1, hu⟩
+    · exact ((fail_ok _ _ _).mp h2).elim
+  · exact ((fail_ok _ _ _).mp h2).elim
+
+theorem nextUniform_spec {lo hi : Q} {s : St} {q : Q} {s' : St} (h : nextUniform lo hi s = .ok (q, s')) :
+    lo.le q = true ∧ q.le hi = true ∧ s'.nextUid = s.nextUid := by
+  unfold nextUniform at h
+  rw [bind_ok] at h
+  obtain ⟨e, s1, h1, h2⟩ := h
+  have hu := popEv_uid h1
+  split at h2
+  · split at h2
+    · rename_i hc
+      rw [pure_ok] at h2
+      obtain ⟨rfl, rfl⟩ := h2
+      exact ⟨hc.2.1, hc.2.2, hu⟩
+    · exact ((fail_ok _ _ _).mp h2).elim
+  · exact ((fail_ok _ _ _).mp h2).elim
+
+/-- `k` draws of one index each keep the uid counter and give `k` results. -/
+theorem nextIdxs_spec (kd : RK) (n : Nat) (l : List Nat) (s : St) (is : List Nat) (s' : St)
+    (h : forEachM (fun _ => nextIdx kd n) l s = .ok (is, s')) :
+    is.length = l.length ∧ (∀ i ∈ is, i < n) ∧ s'.nextUid = s.nextUid := by
+  have := forEachM_spec (fun _ => nextIdx kd n) (fun t => t.nextUid = s.nextUid) (fun _ i => i < n) l
+    (by
+      intro a _ t b t' ht hb
+      obtain ⟨h1, h2⟩ := nextIdx_spec hb
+      exact ⟨h1, by rw [h2, ht]⟩)
+    s is s' rfl h
+  obtain ⟨hf, hu⟩ := this
+  refine ⟨forall₂_length hf, ?_, hu⟩
+  intro i hi
+  obtain ⟨_, _, h⟩ := forall₂_right hf i hi
+  exact h
+
+end Pg.C14
